@@ -189,3 +189,16 @@ PROPS["C15"] = {
     "quick": {"cases": 200000, "sweep": True, "floor_evaluations": 150000, "floor_nontrivial": 30000},
     "thorough": {"cases": 8000000, "sweep": True, "floor_evaluations": 4000000},
 }
+
+PROPS["C16"] = {
+    "title": "One call consumes one document from a stream",
+    "src": "c16.cpp",
+    "level": "exploration",
+    "technique": "property-based testing with counting readers: generated sequences of documents written back to back, reader position checked after every call, metamorphic replacement of the unread tail by garbage",
+    "rule": "case = 1-8 generated documents of every top-level kind (object, array, string, literal, integer, float) concatenated with generated inter-document blanks (none where the grammar allows; at least one after a number) as JSON, or back to back as MessagePack with generated widths; delivered through a counting custom reader, std::istream and (arduino configuration) Stream; non-trivial = >= 2 documents of different last-token kinds with at least one number that is not last; distinct = hash of the stream",
+    "level_text": "Exploration: call i must return Ok and document i, the reader must then be exactly at the end of the value (at most one byte further for a JSON number), EmptyInput after the last document, and replacing the unread tail by garbage must change neither results nor consumption.",
+    "level_note": "std::istream positions are only checked while the stream is good(); chunked delivery is covered by the istream's own buffering and by the Arduino Stream mock (a short readBytes count is end of input for the library, so partial chunks are not a legal reader behaviour).",
+    "quick": {"configs": ["default", "arduino"], "cases": 200000, "floor_evaluations": 300000, "floor_nontrivial": 50000},
+    "thorough": {"configs": ["default", "arduino"], "cases": 8000000, "floor_evaluations": 8000000},
+    "regress": ["numbers_on_a_stream"],
+}
